@@ -439,6 +439,12 @@ def toplevel_strategy():
     })
 
 
+def deepcopy_plain(tree):
+    from copy import deepcopy
+
+    return deepcopy(tree)
+
+
 def _dependency_session(program):
     """Constructive shape: form 0 is a disabled optional parameter (or, for a boolean, a driver that holds False),
     form 1 depends on it and spells out its own `enabled` member; the session assigns None to the dependent."""
@@ -463,6 +469,7 @@ def roundtrip_program_strategy(tier: str):
 def _roundtrip_programs():
     return st.fixed_dictionaries({
         "dep_session": st.sampled_from([False] * 7 + [True]),
+        "bystander": st.sampled_from([False, False, True]),
         "ws": ws_spec_strategy(),
         "geoh5": st.sampled_from(["path", "path", "pathobj", "open_rw", "open_rw", "open_r"]),
         "top": toplevel_strategy(),
@@ -986,6 +993,17 @@ def run_roundtrip(program: dict, res, pid: str = "C14"):
                 res.count("unspecified_forms")
         res.label("geoh5:" + mode)
 
+        # ---- another, unrelated InputFile of the process whose owner switched `update_enabled` off in its own
+        # options: the file under test must behave as if it were alone
+        if program.get("bystander"):
+            try:
+                from geoh5py.ui_json.constants import default_ui_json as _default
+
+                other_file = InputFile(ui_json={**deepcopy_plain(_default), "geoh5": geoh5_value})
+                other_file.validation_options["update_enabled"] = False
+                res.label("bystander-with-own-options")
+            except Exception as exc:
+                res.label(f"bystander-refused:{type(exc).__name__}")
         # ---- construct
         try:
             ifile = InputFile(ui_json=built.ui_json)
